@@ -190,14 +190,16 @@ Definition build (o : opts) (vid : N) (rt0 : N) (hs : fields) (content : bytes) 
   let vtxt := if vid =? 1 then [49;46;48] else [49;46;49] in
   match validate_header (o_spec o) (o_unknown o) vid hs2 [] with
   | Err e fnd => (Err e fnd, hs2)
-  | Ok (_, hs3) fnd =>
-      (* the builder keeps the record type it was given, not the resolved one *)
-      match parse_block o rt0 hs3 content fnd with
+  | Ok (rt, hs3) fnd =>
+      (* the builder keeps the record type it was given; when none was given (0) it takes the
+         type header validation resolved from the WARC-Type field *)
+      let rtb := if rt0 =? 0 then rt else rt0 in
+      match parse_block o rtb hs3 content fnd with
       | Err e fnd1 => (Err e fnd1, hs3)
       | Ok (hs4, blk, bd, pd) fnd1 =>
-          match validate_digest o rt0 hs4 blk bd pd true fnd1 with
+          match validate_digest o rtb hs4 blk bd pd true fnd1 with
           | Err e fnd2 => (Err e fnd2, hs4)
-          | Ok hs5 fnd2 => (Ok (mkrec vtxt vid rt0 hs5 blk) fnd2, hs5)
+          | Ok hs5 fnd2 => (Ok (mkrec vtxt vid rtb hs5 blk) fnd2, hs5)
           end
       end
   end.
